@@ -19,7 +19,11 @@ Inductive case :=
 | CProg (gen : tree) (obs : option tree)
 (* a fixed text in the region of a recorded deviation that the Coq model does not cover: the tree
    ES5 assigns, the pinned deviating outcome (None = SyntaxError), what otto returned now *)
-| CPin (cls : Z) (spec : tree) (pinned obs : option tree).
+| CPin (cls : Z) (spec : tree) (pinned obs : option tree)
+(* a FunctionBody through the other entry points: generating tree as function expression and as
+   declaration in a program; what parser.ParseFunction(params, body) and ParseFile("function f(params){ body }")
+   returned; whether typeof new Function(params, body) and typeof Function(params, body) gave "function" *)
+| CFun (gen genDecl : tree) (viaParseFunction viaDecl : option tree) (newFunction callFunction : bool).
 
 Definition otree_eqb := option_eqb tree_eqb.
 
@@ -47,4 +51,6 @@ Definition verdict (c : case) : Z * Z :=
   | CStr body obs => judge olz_eqb obs (sv sv_model body) (sv sv_spec body) (str_class body)
   | CProg gen obs => judge otree_eqb obs (Some gen) (Some gen) 0
   | CPin cls spec pinned obs => judge otree_eqb obs pinned (Some spec) cls
+  | CFun gen genDecl pf decl c1 c2 =>
+      judge Bool.eqb (otree_eqb pf (Some gen) && otree_eqb decl (Some genDecl) && c1 && c2) true true 0
   end.
